@@ -9,12 +9,15 @@ Definition pname := list N.      (* a C type name as code points, e.g. 'long dou
 Inductive xtype :=
 | XVoid                                  (* model.VoidType *)
 | XPrim (name : pname) (size : Z)        (* model.PrimitiveType: tp.name, and sizeof on the platform *)
-| XStructOrUnion (size : Z)              (* model.StructOrUnion (complete): sizeof *)
+| XStruct (size : Z)                     (* model.StructType (complete): sizeof *)
+| XUnion (size : Z)                      (* model.UnionType (complete): sizeof;  both are model.StructOrUnion *)
 | XPointer                               (* model.PointerType / FunctionPtrType / NamedPointerType: sizeof = 8 *)
 | XEnum (size : Z).                      (* model.EnumType *)
 
 Definition isinstance_PrimitiveType (t : xtype) : bool := match t with XPrim _ _ => true | _ => false end.
-Definition isinstance_StructOrUnion (t : xtype) : bool := match t with XStructOrUnion _ => true | _ => false end.
+Definition isinstance_StructOrUnion (t : xtype) : bool := match t with XStruct _ | XUnion _ => true | _ => false end.
+Definition isinstance_StructType (t : xtype) : bool := match t with XStruct _ => true | _ => false end.
+Definition isinstance_UnionType (t : xtype) : bool := match t with XUnion _ => true | _ => false end.
 Definition isinstance_VoidType (t : xtype) : bool := match t with XVoid => true | _ => false end.
 
 Fixpoint name_eqb (a b : pname) : bool :=
@@ -33,7 +36,8 @@ Definition sizeof (t : xtype) : Z :=
   match t with
   | XVoid => 0
   | XPrim _ s => s
-  | XStructOrUnion s => s
+  | XStruct s => s
+  | XUnion s => s
   | XPointer => 8
   | XEnum s => s
   end.
